@@ -25,6 +25,14 @@ fn file_dict_path(dir: &Path, doc: &Path) -> PathBuf {
             name.push('%');
         }
     }
+    // names longer than a file name may be: a digest of the whole name and its tail (same convention)
+    if name.len() > 255 {
+        let mut h: u64 = 0xcbf2_9ce4_8422_2325;
+        for b in name.as_bytes() { h ^= *b as u64; h = h.wrapping_mul(0x0000_0100_0000_01b3); }
+        let mut cut = name.len() - (255 - 17);
+        while !name.is_char_boundary(cut) { cut += 1; }
+        name = format!("{h:016x}%{}", &name[cut..]);
+    }
     dir.join("filedicts").join(name)
 }
 
@@ -37,6 +45,24 @@ struct Sess {
 
 impl Sess {
     fn new(dir: PathBuf) -> Self { Self::new_with(dir, None) }
+    /// the two documents live at the same deep relative path in two checkouts: their flattened paths are
+    /// longer than a file name may be and share a long tail
+    fn new_deep(dir: PathBuf, seg: usize, depth: usize) -> Self {
+        std::fs::create_dir_all(&dir).unwrap();
+        let chain: PathBuf = (0..depth).map(|k| format!("{}{k}", "d".repeat(seg))).collect();
+        let mut docs = Vec::new();
+        for co in ["checkout-a", "checkout-b"] {
+            let d = dir.join(co).join(&chain);
+            std::fs::create_dir_all(&d).unwrap();
+            let p = d.join("README.txt");
+            std::fs::write(&p, DOC).unwrap();
+            docs.push((format!("file://{}", p.to_string_lossy()), p));
+        }
+        let plen = docs[0].1.to_string_lossy().len();
+        let mut s = Self { ls: Ls::new(&dir), dir, docs, evs: vec![json!({"ev": "Reset"}), json!({"ev": "Deep", "path_bytes": plen})] };
+        s.boot();
+        s
+    }
     /// `pre`: a dictionary file that exists before the server starts (hand-edited or written by another
     /// tool): (scope, raw contents, the words it holds)
     fn new_with(dir: PathBuf, pre: Option<(&str, String, Vec<&str>)>) -> Self {
@@ -157,6 +183,21 @@ pub fn main(a: &Args) {
                     for e in s.evs.drain(..) { out.emit(&e); }
                     let _ = std::fs::remove_dir_all(&s.dir);
                 }
+            }
+        }
+        // (1c) documents with long paths (the file dictionary's name is the whole path flattened)
+        for (seg, depth) in [(20usize, 4usize), (30, 9), (40, 12)] {
+            for first in [1usize, 2] {
+                let mut s = Sess::new_deep(base.join(format!("s{n}")), seg, depth); n += 1;
+                s.observe();
+                s.add("file", W[0], first);
+                s.observe();
+                s.add("file", W[2], 3 - first);
+                s.observe();
+                s.restart();
+                s.observe();
+                for e in s.evs.drain(..) { out.emit(&e); }
+                let _ = std::fs::remove_dir_all(&s.dir);
             }
         }
         // (2) histories: adds (user / file, case variants, non-ASCII), restarts, a crash
